@@ -148,7 +148,7 @@ PROPERTIES = {
     "C11": {
         "level": "proof",
         "must_fail_quick": False,     # the vacuity twins of these units run under the property that owns each unit (and in C11 thorough)
-        "verus_units": ["arith_widen", "arith128", "widediv", "nofrac", "fracops", "round@*", "transc", "log2inner", "sqrtacc", "powiacc", "leaves", "decbin", "decbin128", "parsetop", "digitsint", "cmp@*", "fromfixed@*", "fromfloat@*", "wrapping", "traitfwd@*", "intconv", "floatglue", "trig", "cmpfloat@*", "cmpfloatrev@*", "cmpint@*", "cmpintrev@*", "bitops@*", "remint@*", "diveuclid@*"],
+        "verus_units": ["arith_widen", "arith128", "widediv", "nofrac", "fracops", "round@*", "transc", "log2inner", "sqrtacc", "powiacc", "leaves", "decbin", "decbin128", "parsetop", "digitsint", "tokeniser", "cmp@*", "fromfixed@*", "fromfloat@*", "wrapping", "traitfwd@*", "intconv", "floatglue", "trig", "cmpfloat@*", "cmpfloatrev@*", "cmpint@*", "cmpintrev@*", "bitops@*", "remint@*", "diveuclid@*"],
         "kani": [{"harness": h, "classes": ["panic"]} for h in
                  _mods("arith8", ["i4f4", "i0f8", "u4f4", "u0f8"], FORMS) + ["arith8::abs_forms_i8"] + TFH
                  + ["float::check_to_f32", "float::check_to_f64", "float::check_kind_f32", "float::check_kind_f64"]
@@ -163,7 +163,7 @@ PROPERTIES = {
     },
     "C08": {
         "level": "other",
-        "verus_units": ["leaves", "decbin", "decbin128", "parsetop", "digitsint"],
+        "verus_units": ["leaves", "decbin", "decbin128", "parsetop", "digitsint", "tokeniser"],
         "kani": ["parse::parse_u8_hex", "parse::parse_u8_oct", "parse::parse_u8_bin", "parse::parse_i8_hex", "parse::parse_error_kinds",
                  "parse::parse_u8_dec", "parse::parse_i8_dec", "parse::policy_forms_u4f4_dec", "parse::policy_forms_i4f4_hex"],
         "kani_thorough": ["parse::policy_forms_i4f4_dec", "parse::policy_forms_u4f4_oct", {"harness": "parse::parse_u8_dec_long", "timeout": 9000}, {"harness": "parse::parse_i8_dec_long", "timeout": 9000}],
@@ -175,15 +175,18 @@ PROPERTIES = {
                        "is the literal's correctly rounded magnitude (ival = the value of the integer digits, a defined function; fround = the rounded fraction, "
                        "uninterpreted); and the four generic INTEGER digit loops dec / bin / oct / hex _str_int_to_bin with unchecked_hex_digit (unit digitsint, generic "
                        "over the result type, R20): value of the digits modulo 2^W with the exact overflow flag, including the more-digits-than-bits truncation "
-                       "path that the bounded harnesses never reach for decimal.  (2) BOUNDED, Kani: the tokeniser and the FRACTION digit loops (iterator "
-                       "adapters) - which layer (1) assumes - and everything else run for real in from_str_u8 / "
+                       "path that the bounded harnesses never reach for decimal; and the tokeniser parse_bounds (unit tokeniser, R21): for EVERY byte string and radix it "
+                       "never panics (all slice bounds proved) and what it returns consists of valid digits of the radix with the leading zeros of the integer part "
+                       "trimmed - the facts the recombination layer relies on.  (2) BOUNDED, Kani: the grammar accepted by the tokeniser (which strings are errors, "
+                       "which sign / point positions are accepted) and the FRACTION digit loops (iterator adapters) - which layer (1) assumes through "
+                       "uninterpreted functions - and everything else run for real in from_str_u8 / "
                        "from_str_i8 on EVERY byte string of at most 9 bytes (radix 2, 8, 16) resp. 6 bytes quick / 7 bytes thorough (radix 10), all nine 8-bit "
                        "layouts symbolic, against the exactly rounded value of the literal (ties to even), the overflow flag, the wrapped value and the error "
                        "classes of a grammar written independently of the tokeniser; complete within the bound, loops closed by unwinding assertions; "
                        "the policy forms of the public API (plain: overflow error; saturating: the bound on the literal's side; wrapping: the wrapped value) against the "
                        "overflowing form on every ASCII string of at most 4 bytes, I4F4 / U4F4, radix 10 / 16 (8 in thorough)",
         "bounded_parts": ["policy forms (impl_from_str_traits!: closures, str::starts_with): Kani on I4F4 / U4F4, strings of at most 4 bytes",
-                          "tokeniser (parse_bounds) and the fraction digit loops (*_str_frac_to_bin, dec_str_frac_to_bin's digit comparison, parse_is_short): decided by Kani on "
+                          "the grammar of the tokeniser (error classes, accepted sign / point positions) and the fraction digit loops (*_str_frac_to_bin, dec_str_frac_to_bin's digit comparison, parse_is_short): decided by Kani on "
                           "the 8-bit instantiation only, string length <= 9 (6 / 7 for decimal); in the Verus layer they are assumed contracts over uninterpreted functions "
                           "(fround, parse_spec)"],
         "assumptions": ["unit parsetop: the leaf contracts of the fraction digit loops and of parse_bounds are assumed (external_body, hand-declared signatures generic over the result type); "
